@@ -129,7 +129,7 @@ def single_form(op, pool):
 
 def programs(rng, tier):
     progs = []
-    n = 250 if tier == "quick" else 4000
+    n = 600 if tier == "quick" else 4000
     OR_T, AND_T = (False, True, True, True), (False, False, False, True)
     for _ in range(n):
         nv = rng.choice([2, 3, 4, 5, 6, 8])
